@@ -39,6 +39,26 @@ def _pool():
         return _shared_pool
 
 
+def reset_pool():
+    """join and drop the persistent pool (so that the process is thread-free again before a fork)."""
+    global _shared_pool
+    with _pool_lock:
+        p, _shared_pool = _shared_pool, None
+    if p is not None:
+        p.shutdown(wait=True)
+
+
+def _after_fork():
+    # threads do not survive fork(): the child starts with a fresh pool
+    global _shared_pool, _pool_lock
+    _shared_pool = None
+    _pool_lock = threading.Lock()
+
+
+import os as _os
+_os.register_at_fork(after_in_child=_after_fork)
+
+
 class _Batch:
     def __init__(self, order):
         self.order = order            # list of submission indices in completion order, or None
